@@ -257,11 +257,11 @@ def n_op(m):
 
 
 @st.composite
-def valid_symm_candidates(draw, sites):
+def valid_symm_candidates(draw, sites, kinds_allowed=("N", "Sz", "site", "orbital", "linear", "single")):
     """candidate integrals of motion that are diagonal in the Fock basis.  Whether each is accepted depends
     on the Hamiltonian; linear ones with dyadic coefficients give exact quantum numbers."""
     modes = modes_of(sites)
-    kinds = draw(st.lists(st.sampled_from(["N", "Sz", "site", "orbital", "linear", "single"]), min_size=1, max_size=3))
+    kinds = draw(st.lists(st.sampled_from(list(kinds_allowed)), min_size=1, max_size=3))
     ops = []
     for k in kinds:
         if k == "N":
@@ -279,6 +279,24 @@ def valid_symm_candidates(draw, sites):
         elif k == "single":
             m = draw(st.sampled_from(modes))
             ops.append([[[1.0, 0.0], n_op(m)]])
+        elif k == "product":
+            # non-linear diagonal operator n_a n_b (or a sum of two such products)
+            p = []
+            for _ in range(draw(st.integers(1, 2))):
+                a = draw(st.sampled_from(modes)); b = draw(st.sampled_from(modes))
+                p.append([[1.0, 0.0], n_op(a) + n_op(b)])
+            ops.append(p)
+        elif k == "hoplike":
+            # NOT diagonal in the Fock basis: must never lead to an unsound partition
+            a = draw(st.sampled_from(modes)); b = draw(st.sampled_from(modes))
+            if a != b:
+                ops.append([[[1.0, 0.0], [[1, *a], [0, *b]]], [[1.0, 0.0], [[1, *b], [0, *a]]]])
+        elif k == "nonuniform":
+            # linear with generic (non-dyadic) coefficients: sums of quantum numbers are not exact in floating point
+            coefs = draw(st.lists(st.integers(-9, 9).map(lambda q: q / 10.0), min_size=len(modes), max_size=len(modes)))
+            p = [[[c, 0.0], n_op(m)] for c, m in zip(coefs, modes) if c != 0.0]
+            if p:
+                ops.append(p)
         else:
             coefs = draw(st.lists(st.integers(-8, 8).map(lambda q: q / 4.0), min_size=len(modes), max_size=len(modes)))
             p = [[[c, 0.0], n_op(m)] for c, m in zip(coefs, modes) if c != 0.0]
@@ -288,23 +306,23 @@ def valid_symm_candidates(draw, sites):
 
 
 @st.composite
-def symm_st(draw, sites, modes=("default", "ignore", "custom"), weights=None):
+def symm_st(draw, sites, modes=("default", "ignore", "custom"), kinds=("N", "Sz", "site", "orbital", "linear", "single")):
     mode = draw(st.sampled_from(list(modes)))
     if mode == "custom":
-        return {"mode": "custom", "ops": draw(valid_symm_candidates(sites))}
+        return {"mode": "custom", "ops": draw(valid_symm_candidates(sites, kinds))}
     return {"mode": mode}
 
 
 @st.composite
 def model_st(draw, cplx=None, max_modes=6, max_sites=4, beta_lo=0.1, beta_hi=200.0, symm_modes=("default", "ignore", "custom"),
              preset_share=0.5, spins=(1, 2, 3), orbitals=(1, 2, 3), max_pieces=6, raw_kinds=None, presets=None,
-             order_spins=(0,), min_sites=1):
+             order_spins=(0,), min_sites=1, symm_kinds=("N", "Sz", "site", "orbital", "linear", "single")):
     if cplx is None:
         cplx = draw(st.booleans())
     sites = draw(sites_st(max_modes=max_modes, max_sites=max_sites, spins=spins, orbitals=orbitals, min_sites=min_sites))
     terms = draw(terms_st(sites, cplx, max_pieces=max_pieces, preset_share=preset_share, raw_kinds=raw_kinds, presets=presets))
     beta = draw(beta_st(beta_lo, beta_hi))
-    symm = draw(symm_st(sites, symm_modes))
+    symm = draw(symm_st(sites, symm_modes, symm_kinds))
     osp = draw(st.sampled_from(list(order_spins)))
     return {"cplx": bool(cplx), "sites": sites, "terms": terms, "order_spins": osp, "symm": symm, "beta": beta}
 
